@@ -142,7 +142,13 @@ def check(db, rep):
     r4 = rep.rule('r4', 'NESTING: child ranges lie inside parent ranges; every sentence of the corpus is accepted and yields one tree', 60)
     covered = set()
     faults = {}
-    for s, toks in corpus():
+    sentences = [(s, toks, False) for s, toks in corpus()]
+    if rep.tier == 'thorough':
+        # every witness sentence of the tree grammar: each production with each operand root kind at each position
+        from engine.models.treegrammar import TreeGrammar
+        sentences += [(s, toks, True) for s, toks in TreeGrammar(db).sentences()]
+        rep.note('grammar_witness_sentences', len(sentences) - len(corpus()))
+    for s, toks, may_reject in sentences:
         try:
             t, info = model.build(toks)
         except OutOfFragment as e:
@@ -151,6 +157,8 @@ def check(db, rep):
         covered |= set(lr.reductions)
         for r, span, got, want in model.range_faults:
             faults.setdefault(r, (s, span, got, want))
+        if t is None and may_reject:
+            continue          # witnesses include sentences a semantic action rejects
         if t is None:
             r4.violation('sentence:' + s, 'ccl/rslang/src/RSParserImpl.cpp', 'valid sentence `%s` is rejected: %s' % (s, info))
             continue
